@@ -11,7 +11,7 @@ from fibertree import Fiber, Tensor, Payload, CoordPayload
 from fibertree.core.fiber import CoordinateError
 
 from mc import bfs, core
-from mc.obs import rawtree, rawfull, wf, interior_depths_ok, rank_index_view, hidden_globals
+from mc.obs import rawtree, rawfull, wf, interior_depths_ok, rank_index_view, hidden_globals, hidden_tensor
 from mc.univ import mktree, RANK_IDS
 
 LEVEL = "model_checking"
@@ -449,7 +449,7 @@ def key(S):
     root = S.root
     sh = root.getRankAttrs().getShape()
     rk = rank_index_view(S.T) if S.T is not None else None
-    return (rawfull(root), sh, rk, hidden_globals())
+    return (rawfull(root), sh, rk, hidden_globals(), hidden_tensor(S.T))
 
 
 CASES = {"history": bfs.replay_case}
